@@ -59,7 +59,8 @@ def write(case, path):
     fmt = case["fmt"]
     if fmt == "csep-csv":
         files.write_csep_csv(path, [("id%d" % i, r["ms"], r["lat"], r["lon"], r["depth"], r["mag"]) for i, r in enumerate(case["recs"])],
-                             catalog_id=case.get("catalog_id", 0), header=case["header"], frac=case.get("frac", "auto"))
+                             catalog_id=case.get("catalog_id", 0), header=case["header"], frac=case.get("frac", "auto"),
+                             eol=case.get("eol", "\r\n"), blank_ids=case.get("blank_ids", False))
     elif fmt == "zmap":
         files.write_zmap(path, case["recs"], ncols=case.get("ncols", 13))
     elif fmt == "jma-csv":
@@ -173,6 +174,9 @@ def cases(draw, max_n=50):
         c["header"] = draw(st.booleans())
     if fmt == "csep-csv":
         c["frac"] = draw(st.sampled_from(["auto", "us", "ms"]))
+        c["eol"] = draw(st.sampled_from(["\n", "\r\n"]))
+        c["blank_ids"] = draw(st.booleans())
+        c["catalog_id"] = draw(st.sampled_from([0, 7, None]))
     if fmt == "zmap":
         c["ncols"] = draw(st.sampled_from([10, 13]))
     if fmt == "ndk":
